@@ -19,6 +19,7 @@ ASSUMPTIONS = [
     "the generated stream lines are a faithful rendering of Betfair mcm data (format taken from bflw's cache code)",
     "audits run at every agent callback, after the simulated middleware and at the end of every update; state between those points is not inspected",
     "LAY limit orders taken to SP: only the total is checked and |remaining| <= 0.01 is accepted as 'nothing remains' (2dp stake re-sizing)",
+    "best_price_execution is off in 30% of the scenarios, config.simulation_available_prices is on in 15%",
 ]
 COMPONENTS = common.COMPONENTS_A
 MONITORS = [LedgerMonitor, SizesMonitor]
@@ -44,7 +45,7 @@ def generate(rng, i, tier):
     }
     clients = [{"bpe": rng.random() < 0.7, "full_match": rng.random() < 0.1}]
     strat_kw = {"max_live_trade_count": rng.choice([1, 3, 10]), "max_order_exposure": 50, "max_selection_exposure": 200}
-    return common.base_scenario(
+    sc = common.base_scenario(
         rng,
         n_markets=rng.choice([1, 1, 1, 2]),
         market_knobs=knobs,
@@ -53,6 +54,14 @@ def generate(rng, i, tier):
         strat_kw=strat_kw,
         clients=clients,
     )
+    import random
+
+    side = random.Random("c04-cfg|%d" % rng.getrandbits(32))
+    if side.random() < 0.15:
+        # config.simulation_available_prices: resting orders are also matched against prices that cross them (a documented,
+        # non-default matching mode) - size conservation and completion must hold there just the same
+        sc["cfg"]["available_prices"] = True
+    return sc
 
 
 def execute(scenario):
